@@ -138,6 +138,37 @@ def gen_cases(rng, tier):
     for i in range(16 * k):
         b, a = gen_pole_filter(rng, i)
         add({'kind': 'impulse', 'b': [fs(v) for v in b], 'a': [fs(v) for v in a], 'N': 9})
+    # D' paths around the filter object: inverse(), difference_equation().transfer_function(), frequency_response()
+    # (incl. the moving-average closed form), from_ZPK, zexpr.difference_equation(), zexpr.as_ab()
+    for i in range(6 * k):
+        b, a = gen_filter(rng)
+        if b[0] == 0:
+            b[0] = F(1)
+        add({'kind': 'invtf', 'b': [fs(v) for v in b], 'a': [fs(v) for v in a], 'z': fs(rnd(rng, nz=True, big=9) + F(1, 7))})
+    for i in range(6 * k):
+        b, a = gen_filter(rng)
+        if all(v == 0 for v in b):
+            b[0] = F(1)
+        add({'kind': 'detf', 'b': [fs(v) for v in b], 'a': [fs(v) for v in a], 'z': fs(rnd(rng, nz=True, big=9) + F(2, 7))})
+    for i in range(9 * k):
+        e = rng.choice(UNIT)
+        if i % 3 == 0:                      # moving average: equal b, a single denominator coefficient
+            c0 = rnd(rng, nz=True)
+            b, a = [c0] * rng.randint(2, 5), [rnd(rng, nz=True)]
+        else:
+            b, a = gen_filter(rng)
+        add({'kind': 'freqresp', 'b': [fs(v) for v in b], 'a': [fs(v) for v in a], 'e': [fs(e[0]), fs(e[1])]})
+    for i in range(8 * k):
+        nz_, np_ = [(1, 1), (2, 2), (0, 1), (1, 2), (0, 2), (1, 3), (2, 1), (3, 3)][i % 8]
+        add({'kind': 'zpk', 'Z': [fs(rnd(rng)) for _ in range(nz_)], 'P': [fs(rnd(rng)) for _ in range(np_)], 'K': fs(rnd(rng, nz=True)),
+             'z': fs(rnd(rng, nz=True, big=9) + F(3, 11))})
+    for i in range(8 * k):
+        nn = [rnd(rng, nz=True)] + [rnd(rng) for _ in range(rng.randint(0, 2))]
+        dn = [rnd(rng, nz=True)] + [rnd(rng) for _ in range(rng.randint(len(nn) - 1, 3))]
+        if i % 4 == 0:
+            nn, dn = nn + [F(0)], dn + [F(0)]
+        add({'kind': 'zde' if i % 2 == 0 else 'asab', 'H': '(%s)/(%s)' % (poly_str(nn), poly_str(dn)),
+             'nn_req': [fs(v) for v in nn], 'dn_req': [fs(v) for v in dn], 'z': fs(rnd(rng, nz=True, big=9) + F(3, 7))})
     # E zic
     for i in range(24 * k):
         b, a = gen_filter(rng)
@@ -840,6 +871,8 @@ Definition zrange (lo : Z) (len : nat) : list Z := map (fun i => (lo + Z.of_nat 
 Definition pqv (X : PQ QcF) (w : Qc) : Qc := (evalw (K:=QcF) (fst X) w / evalw (K:=QcF) (snd X) w)%Qc.
 Definition qi (q : Qc) : qci := QI q 0%Qc.
 Definition pqvi (X : PQ QcIF) (w : qci) : qci := cidiv (evalw (K:=QcIF) (fst X) w) (evalw (K:=QcIF) (snd X) w).
+Definition zpkv (Z P : list Qc) (K z : Qc) : Qc :=
+  (K * fold_right (fun r acc => (z - r) * acc) 1 Z / fold_right (fun r acc => (z - r) * acc) 1 P)%Qc.
 Definition W1 : qci := ci1.  Definition W2 : qci := QI (qc (-1) 1) (qc 0 1).  Definition W4 : qci := QI (qc 0 1) (qc (-1) 1).
 '''
 
@@ -861,6 +894,32 @@ def coq_case(c, r, extra):
             qlist(b), qlist(a), zlit(c['xn0']), qlist(x), qlist(ic), zlit(n0), n1 + 1, qlist([F(v) for v in r['vals']]))
     if k == 'tf':
         return 'qc_eqb (tf_model (K:=QcF) %s %s %s) %s' % (qlist([F(v) for v in c['b']]), qlist([F(v) for v in c['a']]), qc(c['z']), qc(r['val']))
+    if k == 'invtf':
+        return 'qc_eqb (tf_model (K:=QcF) %s %s %s) %s' % (qlist([F(v) for v in c['a']]), qlist([F(v) for v in c['b']]), qc(c['z']), qc(r['val']))
+    if k == 'detf':
+        return 'qc_eqb (tf_model (K:=QcF) %s %s %s) %s' % (qlist([F(v) for v in c['b']]), qlist([F(v) for v in c['a']]), qc(c['z']), qc(r['val']))
+    if k == 'freqresp':
+        if 'val' not in r:
+            return None
+        ql = lambda l: '([%s] : list qci)' % '; '.join('qi %s' % qc(v) for v in l)
+        E = '(QI %s %s)' % (qc(c['e'][0]), qc(c['e'][1]))
+        return 'qci_eqb (tf_model (K:=QcIF) %s %s (cimul %s %s)) %s' % (ql(c['b']), ql(c['a']), E, E, ci(r['val']))
+    if k == 'zpk':
+        return 'qc_eqb (zpkv %s %s %s %s) %s' % (qlist([F(v) for v in c['Z']]), qlist([F(v) for v in c['P']]), qc(c['K']), qc(c['z']), qc(r['val']))
+    if k == 'asab':
+        z = F(c['z'])
+        return ('qc_eqb (evalw (K:=QcF) %s %s * evald (K:=QcF) %s %s)%%Qc (evalw (K:=QcF) %s %s * evald (K:=QcF) %s %s)%%Qc'
+                % (qlist([F(v) for v in r['b']]), qc(1 / z), qlist([F(v) for v in c['dn_req']]), qc(z),
+                   qlist([F(v) for v in r['a']]), qc(1 / z), qlist([F(v) for v in c['nn_req']]), qc(z)))
+    if k == 'zde':
+        def pl(d):
+            items = sorted((int(m), F(v)) for m, v in d.items())
+            return '([%s] : list (nat * Qc))' % '; '.join('(%d%%nat, %s)' % (m, qc(v)) for m, v in items) if items else '(@nil (nat * Qc))'
+        if r['lhs_x']:
+            extra['struct'] = 'input terms on the left-hand side'
+        return ('(let M := from_tf (K:=QcF) %s %s true in let T := de_terms (K:=QcF) (snd M) 0 true in '
+                'pleqb (nzp (fst T)) %s && pleqb (nzp (snd T)) %s && pleqb (nzp (enum (fst M))) %s)'
+                % (qlist([F(v) for v in r['nn']]), qlist([F(v) for v in r['dn']]), pl(r['lhs_y']), pl(r['rhs_y']), pl(r['rhs_x'])))
     if k == 'de':
         def pl(d):
             items = sorted((int(m), F(v)) for m, v in d.items())
@@ -1024,6 +1083,51 @@ def oracle(c, r):
         if den == 0:
             return None, ''
         return (F(r['val']) * den == sum(v * w ** i for i, v in enumerate(b))), 'H(z) A(1/z) != B(1/z)'
+    if k in ('invtf', 'detf'):
+        b, a = [F(v) for v in c['b']], [F(v) for v in c['a']]
+        w = 1 / F(c['z'])
+        B, A = sum(v * w ** i for i, v in enumerate(b)), sum(v * w ** i for i, v in enumerate(a))
+        if A == 0 or B == 0:
+            return None, ''
+        return (F(r['val']) == (A / B if k == 'invtf' else B / A)), 'value %s, expected %s' % (r['val'], A / B if k == 'invtf' else B / A)
+    if k == 'freqresp':
+        if 'val' not in r:
+            return None, ''
+        cr, ci_ = F(c['e'][0]), F(c['e'][1])
+        zr, zi = cr * cr - ci_ * ci_, 2 * cr * ci_            # z = exp(j 2 pi f dt) = (c + j s)^2
+        def ev(l):
+            tr_, ti_, pr, pi_ = F(0), F(0), F(1), F(0)
+            for v in l:
+                tr_ += F(v) * pr
+                ti_ += F(v) * pi_
+                pr, pi_ = pr * zr + pi_ * zi, pi_ * zr - pr * zi       # times 1/z = conj(z)
+            return tr_, ti_
+        (br, bi), (ar, ai) = ev(c['b']), ev(c['a'])
+        d = ar * ar + ai * ai
+        if d == 0:
+            return None, ''
+        hr, hi = (br * ar + bi * ai) / d, (bi * ar - br * ai) / d
+        return (hr == F(r['val'][0]) and hi == F(r['val'][1])), 'frequency response %s, H(e^{j2 pi f dt}) = (%s, %s)' % (r['val'], hr, hi)
+    if k == 'zpk':
+        z = F(c['z'])
+        num = F(c['K']) * math.prod([z - F(v) for v in c['Z']])
+        den = math.prod([z - F(v) for v in c['P']])
+        if den == 0:
+            return None, ''
+        return (F(r['val']) == num / den), 'H(z) = %s, K prod(z - z_i)/prod(z - p_i) = %s' % (r['val'], num / den)
+    if k in ('zde', 'asab'):
+        z = F(c['z'])
+        w = 1 / z
+        nn, dn = [F(v) for v in c['nn_req']], [F(v) for v in c['dn_req']]
+        Nz = sum(v * z ** (len(nn) - 1 - i) for i, v in enumerate(nn))
+        Dz = sum(v * z ** (len(dn) - 1 - i) for i, v in enumerate(dn))
+        if k == 'asab':
+            A = sum(F(v) * w ** i for i, v in enumerate(r['a']))
+            B = sum(F(v) * w ** i for i, v in enumerate(r['b']))
+        else:
+            A = sum((F(r['lhs_y'].get(str(m), 0)) - F(r['rhs_y'].get(str(m), 0))) * w ** m for m in range(12))
+            B = sum((F(r['rhs_x'].get(str(m), 0)) - F(r['lhs_x'].get(str(m), 0))) * w ** m for m in range(12))
+        return (B * Dz == A * Nz), 'B(1/z)/A(1/z) != H(z)'
     if k == 'de':
         a, b = [F(v) for v in c['a']], [F(v) for v in c['b']]
         for m in range(max(len(a), len(b)) + 2):
@@ -1275,6 +1379,18 @@ def fingerprint(c, r):
                 py_response(b, a, x, 0, ic, c['ni'][0], c['ni'][1]) == [F(v) for v in r['vals']]:
             return ['DLTIFilter.response:sequence-origin-ignored']
         return ['DLTIFilter.response:other']
+    if k == 'zpk':
+        z = F(c['z'])
+        den = math.prod([z - F(v) for v in c['P']])
+        if len(c['Z']) != len(c['P']) and den != 0 and \
+                F(r['val']) == F(c['K']) * math.prod([z - F(v) for v in c['Z']]) / den * z ** (len(c['P']) - len(c['Z'])):
+            return ['DLTIFilter.from_ZPK:unequal-zero-pole-count']
+        return ['DLTIFilter.from_ZPK:other']
+    if k == 'freqresp':
+        ok_, det = oracle(dict(c, b=[fs(F(v) * len(c['b'])) for v in c['b']]), r)
+        if r.get('ma') and ok_:
+            return ['DLTIFilter.frequency_response:moving-average-gain']
+        return ['DLTIFilter.frequency_response:other']
     if k == 'lfilter':
         b, a, x = ([F(v) for v in c[key]] for key in ('b', 'a', 'x'))
         obs = [F(v) for v in r['vals']]
@@ -1326,7 +1442,7 @@ def fingerprint(c, r):
         return ['DFTTransformer.term:' + '+'.join(sorted(set(t[0] for t in c['sig']))) + (':inverse' if c['inverse'] else '')]
     return ['%s' % {'response': 'DLTIFilter.response', 'tf': 'DLTIFilter.transfer_function', 'de': 'DLTIFilter.difference_equation',
                     'impulse': 'DLTIFilter.impulse_response', 'fromtf': 'DLTIFilter.from_transfer_function',
-                    'izt': 'InverseZTransformer.ratfun', 'step': 'DLTIFilter.step_response', 'seqdft': 'DiscreteTimeDomainSequence.DFT'}.get(k, k)]
+                    'invtf': 'DLTIFilter.inverse', 'detf': 'DifferenceEquation.transfer_function', 'zde': 'ZDomainExpression.difference_equation', 'asab': 'ZDomainExpression.as_ab', 'izt': 'InverseZTransformer.ratfun', 'step': 'DLTIFilter.step_response', 'seqdft': 'DiscreteTimeDomainSequence.DFT'}.get(k, k)]
 
 
 def term_class(d):
